@@ -39,6 +39,9 @@ pub enum SigmaKind {
     OtherParty(u16),
     OtherMessage,
     PlusDelta(u64),
+    /// sigma + T with T outside the prime-order group (passes every pairing check, is another byte string)
+    #[serde(alias = "PlusTorsion")]
+    PlusTorsion(u64),
 }
 
 #[derive(Clone, Debug, Serialize, Deserialize)]
@@ -462,6 +465,13 @@ pub fn apply(v: &mut Value, m: &Mut, h: &Honest, msg: &[u8]) -> bool {
                     let Some(cur) = bytes_of(&v["signatures"][s][0]["sigma"]) else { return false };
                     let Ok(cur) = <[u8; 48]>::try_from(cur) else { return false };
                     let Some(nw) = blsx::sigma_add(&cur, &blsx::delta_point(*seed), false) else { return false };
+                    v["signatures"][s][0]["sigma"] = json_bytes(&nw);
+                }
+                SigmaKind::PlusTorsion(seed) => {
+                    let Some(cur) = bytes_of(&v["signatures"][s][0]["sigma"]) else { return false };
+                    let Ok(cur) = <[u8; 48]>::try_from(cur) else { return false };
+                    let Some(t) = blsx::torsion_point(*seed) else { return false };
+                    let Some(nw) = blsx::sigma_add(&cur, &t, false) else { return false };
                     v["signatures"][s][0]["sigma"] = json_bytes(&nw);
                 }
             }
@@ -973,7 +983,7 @@ fn mut_strategy() -> impl Strategy<Value = Mut> {
                 prop_oneof![Just(0u64), 0u64..1_000_000, any::<u64>()].prop_map(PartyKind::InflateStake)
             ]).prop_map(|(sig, kind)| Mut::ReplaceParty { sig, kind }),
         2 => (r, 0u64..1000, prop_oneof![any::<u64>(), 1u64..1_000_000]).prop_map(|(sig, seed, stake)| Mut::Outsider { sig, seed, stake }),
-        3 => (r, prop_oneof![r.prop_map(SigmaKind::OtherParty), Just(SigmaKind::OtherMessage), (0u64..1000).prop_map(SigmaKind::PlusDelta)])
+        3 => (r, prop_oneof![r.prop_map(SigmaKind::OtherParty), Just(SigmaKind::OtherMessage), (0u64..1000).prop_map(SigmaKind::PlusDelta), (0u64..1000).prop_map(SigmaKind::PlusTorsion), (0u64..1000).prop_map(SigmaKind::PlusTorsion)])
             .prop_map(|(sig, kind)| Mut::Sigma { sig, kind }),
         2 => (r, r, 0u64..1000).prop_map(|(a, b, seed)| Mut::CompensatePair { a, b, seed }),
         2 => (r, r, 0u64..1000, 0u8..3).prop_map(|(a, b, seed, derivation)| Mut::WeightedCompensate { a, b, seed, derivation }),
@@ -1118,7 +1128,7 @@ pub fn run(args: &Args) -> i32 {
         }
     }
     check.enumerate("systematic-sigma-surgery", sys.into_iter(), false, case_fn);
-    check.section("mutations", || case_strategy(pool.clone()), t.pick(8000, 300_000), case_fn);
-    check.section("batch", || batch_strategy(small_pool.clone()), t.pick(1500, 40_000), batch_case);
+    check.section("mutations", || case_strategy(pool.clone()), t.pick(24_000, 400_000), case_fn);
+    check.section("batch", || batch_strategy(small_pool.clone()), t.pick(4000, 60_000), batch_case);
     check.finish()
 }
